@@ -391,7 +391,7 @@ func Drive(run *common.Run, prop string, b Budget) {
 			return
 		}
 		if c.Mode == "x" || c.Mode == "X" {
-			run.Count("extended-copy (oracle only)")
+			run.Count("extended-copy")
 			nroots := 0
 			for _, n := range g.Nodes {
 				if !n.Foreign() && len(g.Preds(n.ID)) == 0 && g.Reach(n.ID)[res.Root2] {
@@ -399,9 +399,6 @@ func Drive(run *common.Run, prop string, b Budget) {
 				}
 			}
 			run.Count(fmt.Sprintf("extended-copy roots=%d", min(nroots, 4)))
-			run.Case(id, "0 0 x 0 - - - - rp="+c.Stream, "UNJUDGED")
-			oracle(run, id, res)
-			return
 		}
 		run.Case(id, ModelInput(res), implLine(res))
 		run.TracesAgainstImpl++
